@@ -9,6 +9,7 @@
 mod dn_sim;
 mod engine;
 mod keys;
+mod purity;
 mod recipe;
 mod sign_sim;
 mod signer;
@@ -81,6 +82,9 @@ fn main() {
         }
         "dn-sim" => dispatch::<dn_sim::DnSim>(&args[2], &args[3..]),
         "sign-sim" => dispatch::<sign_sim::SignSim>(&args[2], &args[3..]),
+        "purity-hist" => dispatch::<purity::PurityHist>(&args[2], &args[3..]),
+        #[cfg(feature = "shuttle")]
+        "purity-shuttle" => dispatch::<purity::PurityShuttle>(&args[2], &args[3..]),
         other => {
             eprintln!("unknown engine {other}");
             2
